@@ -188,12 +188,12 @@ class C06(PropertyCheck):
         for (f, e) in combos:
             for name, alpha in alphabets(f).items():
                 for n in range(0, 10):
-                    for rep in range(1 if quick else 3):
+                    for rep in range(3 if quick else 12):
                         es = [(b"k%d" % i, rnd_msg(f, alpha, n if i == 0 else rng.randint(0, 9))) for i in range(rng.randint(1, 4))]
                         cases.append(Case(render(f, e, rnd_sj(rng, SJ_ASCII, rng.randint(0, 5)), es), "length-grid"))
 
         # -- random archives
-        n_rand = 260 if quick else 2500
+        n_rand = 1500 if quick else 20000
         for _ in range(n_rand):
             f, e = rng.choice(combos)
             alpha = alphabets(f)[rng.choice(list(alphabets(f)))]
@@ -221,7 +221,7 @@ class C06(PropertyCheck):
                 cases.append(Case("txtf %s %s %s" % (f, e, B(open(p, "rb").read())), "game-files"))
 
         # -- from_archive on API-built archives (reference writer; well- and ill-formed)
-        n_arch = 120 if quick else 1200
+        n_arch = 800 if quick else 12000
         for _ in range(n_arch):
             f, e = rng.choice(combos)
             cases.append(self.archive_case(rng, f, e))
@@ -229,7 +229,7 @@ class C06(PropertyCheck):
         # -- A-codec sweep on the real library (no model involved)
         for e in "LB":
             if quick:
-                ranges = [(1, 0x800), (0x3000, 0x3400), (0xD000, 0xE100), (0xFE00, 0x10100), (0x1F000, 0x1F400), (0x10FC00, 0x110000)]
+                ranges = [(1, 0x1000), (0x3000, 0x3400), (0x4E00, 0x5000), (0xD000, 0xE100), (0xF900, 0x10100), (0x1F000, 0x1F800), (0x2F800, 0x2FA20), (0x10FC00, 0x110000)]
             else:
                 ranges = [(a, min(a + 0x1000, 0x110000)) for a in range(0, 0x110000, 0x1000)]
             for (a, b) in ranges:
